@@ -180,7 +180,7 @@ class WorldGen:
         for sp, g in zip(names, gen):
             flat = [C.value(r, g, hazard and r.random() < 0.2) for _ in range(n)]
             if dtype.startswith("i"):
-                flat = [int(round(v)) or 1 for v in flat]
+                flat = [(int(round(v)) or 1) if (v == v and abs(v) < 1e18) else 1 for v in flat]
             cols[sp] = flat
         return names, cols
 
@@ -197,6 +197,8 @@ class WorldGen:
         d = C.dim_of(sys_)
         if shape is None:
             shape = r.choice(([3], [3], [1], [4], [2, 3], [3, 1], [2, 2, 2], [0]))
+            if r.random() < 0.04:
+                shape = r.choice(([33], [64], [257], [1025], [40, 3]))      # sizes beyond SIMD widths / small-array fast paths
         dt = r.choice(("f8", "f8", "f8", "f4", "i8"))
         names, cols = self._cols(sys_, mom, shape, dt, hazard=k["hazard_values"])
         how = r.choice(("cols", "cols_arr", "rows", "rows_cls", "dtobj", "view"))
@@ -283,7 +285,7 @@ class WorldGen:
         extra = r.random() < 0.25
         hz = k["hazard_values"]
         if lay == "flat":
-            data = self._ak_records(sys_, mom, r.choice((1, 3, 3, 4)), extra, hz)
+            data = self._ak_records(sys_, mom, r.choice((1, 3, 3, 4)) if r.random() > 0.04 else r.choice((33, 130, 1025)), extra, hz)
             shape = [len(data)]
         elif lay == "single":
             data = self._ak_records(sys_, mom, 1, extra, hz)
@@ -707,6 +709,26 @@ class WorldGen:
         mom = r.random() < 0.5
         d = C.dim_of(sys_)
         w = r.choice([b for b in ("obj", "np", "ak") if bk[b]] or ["obj"])
+        if r.random() < 0.2:
+            # rarely used public entry points
+            which = r.choice(("Vector", "from", "arr", "awk", "dim", "coordcls"))
+            if which == "Vector":
+                return {"f": "vector.Vector", "k": self.coord_kwargs(sys_, mom)}
+            if which == "from":
+                names = "".join(C.names_of(sys_))
+                vals = C.values(r, sys_)
+                return {"f": f"vector.VectorObject{d}D.from_{names}", "a": [vals[n] for n in C.names_of(sys_)]}
+            if which == "arr":
+                names, cols = self._cols(sys_, mom, [2])
+                return {"f": "vector.arr", "a": [{nm: cols[nm] for nm in names}]}
+            if which == "awk":
+                return {"f": "vector.awk", "a": [self._ak_records(sys_, mom, 2, False)]}
+            if which == "dim":
+                c = self.vec_slots()
+                if c:
+                    return {"f": "vector.dim", "a": [P(r.choice(c))]}
+            if which == "coordcls":
+                return {"f": "vector.backends.object.AzimuthalObject" + ("XY" if sys_[0] == "xy" else "RhoPhi"), "a": [1.5, 0.25]}
         if w == "obj":
             return {"f": "vector.obj", "k": self.coord_kwargs(sys_, mom)}
         if w == "np":
